@@ -206,7 +206,9 @@ func InitSharedMultiColumnReaders(segKey string, colNames map[string]bool,
 	var fName string
 	for cname, fetchFromBlob := range colNames {
 		if cname == "" {
-			return nil, fmt.Errorf("InitSharedMultiColumnReaders: unknown seg set col")
+			// the callers close what they get (deferred): give the FDs back and return the closed readers
+			sharedReader.Close()
+			return sharedReader, fmt.Errorf("InitSharedMultiColumnReaders: unknown seg set col")
 		} else if cname == "*" {
 			continue
 		} else {
